@@ -56,6 +56,10 @@ pub enum Error {
     UnexpectedChar(String, usize),
     #[error("comma required at {0}")]
     CommaRequired(usize),
+    #[error("at least one digit required")]
+    DigitRequired,
+    #[error("comma must be followed by 3 digits, but ended at {0}")]
+    IncompleteGroup(usize),
     #[error("unexpressible decimal {0}")]
     InvalidDecimal(#[from] rust_decimal::Error),
 }
@@ -132,17 +136,20 @@ impl FromStr for PrettyDecimal {
             _ if cp == Some(pos) => true,
             _ => false,
         };
+        let mut has_digit = false;
         for (i, c) in s.bytes().enumerate() {
             match (comma_pos, i, c) {
                 (_, 0, b'-') => {
                     prefix_len = 1;
                     sign = -1;
                 }
-                (_, _, b',') if aligned_comma(prefix_len, comma_pos, i) => {
+                (_, _, b',') if scale.is_none() && aligned_comma(prefix_len, comma_pos, i) => {
                     format = Some(Format::Comma3Dot);
                     comma_pos = Some(i + 4);
                 }
-                (_, _, b'.') if comma_pos.is_none() || comma_pos == Some(i) => {
+                (_, _, b'.')
+                    if scale.is_none() && (comma_pos.is_none() || comma_pos == Some(i)) =>
+                {
                     scale = Some(0);
                     comma_pos = None;
                 }
@@ -153,12 +160,25 @@ impl FromStr for PrettyDecimal {
                     if scale.is_none() && format.is_none() && i >= 3 + prefix_len {
                         format = Some(Format::Plain);
                     }
-                    mantissa = mantissa * 10 + (c as u32 - '0' as u32) as i128;
+                    has_digit = true;
+                    mantissa = mantissa
+                        .checked_mul(10)
+                        .and_then(|m| m.checked_add((c - b'0') as i128))
+                        .ok_or(rust_decimal::Error::ExceedsMaximumPossibleValue)?;
                     scale = scale.map(|x| x + 1);
                 }
                 _ => {
                     return Err(Error::UnexpectedChar(try_find_char(s, i, c), i));
                 }
+            }
+        }
+        if !has_digit {
+            return Err(Error::DigitRequired);
+        }
+        if let Some(cp) = comma_pos {
+            // The last comma must be followed by exactly 3 digits.
+            if cp != s.len() {
+                return Err(Error::IncompleteGroup(s.len()));
             }
         }
         let value = Decimal::try_from_i128_with_scale(sign * mantissa, scale.unwrap_or(0))?;
